@@ -423,8 +423,11 @@ int main()
 			{
 				auto pos = set.Find(k);
 				if (!pos) { out += "-,"; continue; }
-				size_t bi = pos.mIndexCode; auto& fb = bks[bi];
-				out += std::to_string(bi) + "." + std::to_string(size_t(std::addressof(*pos) - &fb.mItems)) + ",";
+				size_t bi = pos.mIndexCode;
+				auto* gb = set.pvFindBuckets(bi, pos.mBucketIterator); size_t gi = 0;   // which generation holds it (0 = newest)
+				for (auto* g = set.mBuckets; g != gb; g = g->GetNextBuckets()) ++gi;
+				auto& fb = (*gb)[bi];
+				out += (gi ? "g" + std::to_string(gi) + ":" : std::string()) + std::to_string(bi) + "." + std::to_string(size_t(std::addressof(*pos) - &fb.mItems)) + ",";
 			}
 			puts(out.c_str());
 		}
@@ -506,8 +509,11 @@ int main()
 			{
 				auto pos = set.Find(k);
 				if (!pos) { out += "-,"; continue; }
-				size_t bi = pos.mIndexCode; auto& fb = bks[bi];
-				out += std::to_string(bi) + "." + std::to_string(size_t(std::addressof(*pos) - fb.mPtrState.GetPointer())) + ",";
+				size_t bi = pos.mIndexCode;
+				auto* gb = set.pvFindBuckets(bi, pos.mBucketIterator); size_t gi = 0;
+				for (auto* g = set.mBuckets; g != gb; g = g->GetNextBuckets()) ++gi;
+				auto& fb = (*gb)[bi];
+				out += (gi ? "g" + std::to_string(gi) + ":" : std::string()) + std::to_string(bi) + "." + std::to_string(size_t(std::addressof(*pos) - fb.mPtrState.GetPointer())) + ",";
 			}
 			puts(out.c_str());
 		}
